@@ -1,4 +1,5 @@
 """C07 — time_split sessions respect active/inactive timeouts and closing items."""
+import datetime
 import itertools
 from hypothesis import strategies as st
 import rxsci as rs
@@ -9,7 +10,7 @@ from vf import drive, cmp, harness as H
 PID = 'C07'
 LEVEL = 'exploration'
 RULE = ("Items are (timestamp, closing flag, group key) with non-decreasing timestamps (deltas 0..7 s: equal timestamps, gaps exactly "
-        "equal to a timeout), active_timeout in {None,1,3,5,8}, inactive_timeout in {None,1,2,3}, closing_mapper present/absent, "
+        "equal to a timeout), active_timeout in {None,1,3,5,8}, inactive_timeout in {None,1,2,3} (datetime / timedelta values; the unit is a second, an hour, half a day or a day), closing_mapper present/absent, "
         "include_closing_item True/False, at top level and under group_by with interleaved keys. Oracle: the statement of C07 "
         "transcribed as a plain loop; the non-empty windows seen by a tap at the head of the window pipeline must equal its windows, "
         "per parent key, in order (so every item is in exactly one window). Sub 'enum' enumerates every delta sequence over {0,1,2,3} "
@@ -71,9 +72,17 @@ def run_case(case):
         items.append((t, bool(case['flags'][n]), case['gk'][n] if case.get('gk') else 0, n))
     grouped = case.get('grouped', False)
     ctx = dict(case)
+    # the documented types: time_mapper returns datetime, timeouts are timedelta; `scale` stretches one unit to
+    # seconds / hours / days (gaps and timeouts of whole days: timedelta.seconds alone would be 0)
+    scale = case.get('scale', 1)
+    base = datetime.datetime(2020, 2, 27, 23, 59, 58)
+    def tm(i):
+        return base + datetime.timedelta(seconds=i[0] * scale)
+    def td(n):
+        return None if n is None else datetime.timedelta(seconds=n * scale)
     clock, phead, head = [0], [], []
     inner = [drive.tap(phead, clock), rs.data.time_split(
-        time_mapper=lambda i: i[0], active_timeout=active, inactive_timeout=inactive,
+        time_mapper=tm, active_timeout=td(active), inactive_timeout=td(inactive),
         closing_mapper=(lambda i: i[1]) if closing else None, include_closing_item=include,
         pipeline=[drive.tap(head, clock), rs.data.to_list()])]
     ops = [rs.ops.group_by(lambda i: i[2], inner)] if grouped else inner
@@ -127,7 +136,7 @@ def run_case(case):
             if (inactive is not None and b - a == inactive) or (active is not None and b - a == active):
                 exact_gap = True
     has_closing = closing and any(case['flags'])
-    labels = ['active=%s' % active, 'inactive=%s' % inactive, 'closing=%s' % ('inc' if closing and include else ('exc' if closing else 'no')),
+    labels = ['scale=%d' % scale, 'active=%s' % active, 'inactive=%s' % inactive, 'closing=%s' % ('inc' if closing and include else ('exc' if closing else 'no')),
               'grouped' if grouped else 'top', 'windows=%d' % min(nwin, 4)]
     if exact_gap:
         labels.append('gap==timeout')
@@ -146,7 +155,7 @@ def case_gen(draw):
         't0': draw(st.integers(0, 3)),
         'deltas': draw(st.lists(st.integers(0, 7), min_size=n, max_size=n)),
         'flags': draw(st.lists(st.integers(0, 3).map(lambda x: int(x == 0)), min_size=n, max_size=n)),
-        'grouped': draw(st.booleans()),
+        'grouped': draw(st.booleans()), 'scale': draw(st.sampled_from([1, 1, 3600, 43200, 86400])),
     }
     case['gk'] = draw(st.lists(st.integers(0, 2), min_size=n, max_size=n)) if case['grouped'] else None
     return case
@@ -159,7 +168,7 @@ def enum(tier):
             for active in ACTIVE:
                 for inactive in INACTIVE:
                     yield {'active': active, 'inactive': inactive, 'closing': False, 'include': True, 'deltas': list(deltas),
-                           'flags': [0] * n, 'grouped': False}
+                           'flags': [0] * n, 'grouped': False, 'scale': [1, 86400, 3600][(n + len(deltas) + (active or 0)) % 3]}
                     if n == 0:
                         continue
                     if n >= 5 and (active in (5, 8) or inactive == 3):
